@@ -391,7 +391,24 @@ loop:
 	cls, _ := c.export(st.LastCommittedTxID(), c14Liveness)
 	r.OracleChecks++
 	if cls != "values" {
-		r.Fail("C14:ExportTx:not-full-at-or-after-cut", "race: ExportTx(last) = "+cls, label)
+		// In this scenario truncation runs against in-flight writers: a value of the last tx that was staged before a
+		// truncation and deleted by it is the known weakness K6 (the export then goes out by digest / fails); only when
+		// every value of the tx is readable is a non-full export something else.
+		last := st.LastCommittedTxID()
+		k6 := false
+		ltx := store.NewTx(st.MaxTxEntries(), st.MaxKeyLen())
+		if err := st.ReadTx(last, false, ltx); err == nil {
+			for _, e := range ltx.Entries() {
+				if _, err := st.ReadValue(e); err != nil {
+					k6 = true
+				}
+			}
+		}
+		if k6 {
+			r.Fail(c14SigInflight, fmt.Sprintf("race: ExportTx(%d) = %s: values of the last tx were staged before a racing truncation and deleted by it", last, cls), label)
+		} else {
+			r.Fail("C14:ExportTx:not-full-at-or-after-cut", "race: ExportTx(last) = "+cls, label)
+		}
 	}
 	r.Eval(label, rounds > 0)
 	r.CountN("race.truncations", rounds)
